@@ -822,6 +822,28 @@ static std::string doOp(const std::string& op) {
     c.purgeWorkingMemory();
     return r;
   }
+  // BEGIN C05R4 — `exprf <ctx> <hex expr>`: evaluate an expression and print the value of the RESULT cell with its LVALUE flag
+  // (top-level `/l` = the node returned a storage cell: variable, constant node, element; `/t` = a temporary). Element flags are dropped.
+  if (cmd == "exprf") {
+    Context& c = *K(1).ctx; StringReader reader(hexdec(a.at(2)));
+    Parser* p = Parser::createInteractiveParser(c, reader);
+    Expression* e = nullptr;
+    try {
+      c.parsingBegin();
+      e = ParseExpression::expression(*p, c);
+      c.parsingEnd();
+    } catch (ParseError& pe) { c.parsingEnd(); delete p; return perr(pe); }
+    delete p;
+    std::string r;
+    try {
+      Value& v = e->value(c);
+      r = "ok " + dumpValue(v, false) + (v.lvalue() ? "/l" : "/t");
+    } catch (RuntimeError& re) { r = rerr(re); }
+    delete e;
+    c.purgeWorkingMemory();
+    return r;
+  }
+  // END C05R4
   if (cmd == "dump") return doDump(*K(1).ctx);
   if (cmd == "out") return "out=" + hexenc(readOut(K(1)));
   if (cmd == "unparse") {
